@@ -9,6 +9,7 @@ def _run_shard(ctx, shard_id, pkgs, timeout, pkg_timeout=600):
     events = []
     todo = list(pkgs)
     attempt = 0
+    stalled = set()
     while todo:
         attempt += 1
         inp = os.path.join(ctx.work, "exec-%s-%d.in.ndjson" % (shard_id, attempt))
@@ -37,6 +38,16 @@ def _run_shard(ctx, shard_id, pkgs, timeout, pkg_timeout=600):
         if culprit is None:
             # crashed while running tests of the last package or before anything started
             culprit = started[-1] if started else todo[0]["id"]
+        if rc == -9:
+            # the limit of the whole vh-exec process ran out (a loaded machine): nothing is known about the package
+            # that happened to be running; go on from it, and give up (tool error) if that happens to it twice
+            if culprit in stalled:
+                raise ToolError("vh-exec: the process limit ran out twice while building %s" % culprit)
+            stalled.add(culprit)
+            ids = [q["id"] for q in todo]
+            todo = todo[ids.index(culprit):]
+            os.remove(inp)
+            continue
         events.append({"ev": "Crashed", "id": culprit, "rc": rc, "stderr": err[-2000:]})
         ids = [q["id"] for q in todo]
         todo = todo[ids.index(culprit) + 1:]
